@@ -1,9 +1,293 @@
-import JunoModel.C18.Model
-import JunoModel.C18.ModelBlockTx
+import JunoModel.C18.ProofsRunner
+import JunoModel.C18.ProofsBlockTx
+/-!
+C18 — property theorems (statements only; helper lemmas are in `ProofsSV`, `ProofsRunner`,
+`ProofsBlockTx`). Every theorem in this module is an obligation listed in evidence/C18.json.
+
+The models carry one flag per defect of the pinned code (`Cfg`, `BlockTx.Cfg`): flag `true` is the
+code as pinned, `false` the code with /verif/proposed-fixes applied; the harness probes which
+variant the tree under test is and runs the correspondence against that variant. A full-strength
+theorem is stated for the repaired variant; for the pinned variant the `_partial` theorem says
+what still holds and a `…_pinned` theorem is the proved negation of the full statement with a
+concrete witness (the same witness is replayed against the real code by the harness).
+-/
 namespace Juno.C18.Props
 open Juno.C18
 
-/-- placeholder while the proofs are being written -/
-theorem target_nil : Registry.target [] = 0#64 := rfl
+/-! ## `SchemaVersion` is a set of migration indices -/
+
+/-- `Has`, `Set`, `Difference`, `Contains`, `Iter` are membership, insertion (of an index < 64),
+set difference, inclusion and ascending enumeration. -/
+theorem schemaVersion_set_semantics (a b : SV) (i j : Nat) :
+    SV.has (SV.set a i) j = (SV.has a j || (decide (j = i) && decide (i < 64))) ∧
+    SV.has (SV.diff a b) j = (SV.has a j && !SV.has b j) ∧
+    (SV.contains a b = true ↔ ∀ k, SV.has b k = true → SV.has a k = true) ∧
+    (j ∈ SV.iter a ↔ SV.has a j = true) ∧ (SV.iter a).Pairwise (· < ·) :=
+  ⟨SV.has_set a i j, SV.has_diff a b j, SV.contains_iff a b, SV.mem_iter a j, SV.iter_sorted a⟩
+
+/-- The target has bit `j` iff migration `j` is registered and mandatory or enabled. -/
+theorem target_spec (r : Registry) (hr : r.ok = true) (j : Nat) :
+    SV.has r.target j = (r[j]?.map Entry.inTarget).getD false :=
+  has_target r hr j
+
+/-! ## A migration is recorded as applied only after it has completed -/
+
+/-- FULL STRENGTH (repaired runner: `markOnNilCtx = false`). For every initial disk, every history
+of starts (any registries, any behaviour of the migrations, cancellation and crash at any tick):
+a migration recorded as applied at the end was applied at the beginning or its `Migrate` returned
+`(nil, nil)` during the history. -/
+theorem applied_implies_complete (cfg : Cfg) (hfix : cfg.markOnNilCtx = false) (d : Disk)
+    (sts : List Start) (j : Nat) (h : (starts cfg d sts).1.cur.has j = true) :
+    d.cur.has j = true ∨ Completed (starts cfg d sts).2 j := by
+  rcases starts_applied cfg sts d j h with h1 | h1 | ⟨h1, _⟩
+  · exact .inl h1
+  · exact .inr h1
+  · rw [hfix] at h1; cases h1
+
+/-- PARTIAL (pinned runner). What is missing from `applied_implies_complete`: a migration is
+also recorded as applied when `Migrate` returned `(nil, err)` with `errors.Is(err, ctx.Err())`
+after a cancellation (lead L9). Equivalently: the full statement holds for every history in which
+no migration returns that pair. -/
+theorem applied_implies_complete_partial (cfg : Cfg) (d : Disk) (sts : List Start) (j : Nat)
+    (h : (starts cfg d sts).1.cur.has j = true) :
+    d.cur.has j = true ∨ Completed (starts cfg d sts).2 j ∨ NilCtx (starts cfg d sts).2 j := by
+  rcases starts_applied cfg sts d j h with h1 | h1 | ⟨_, h1⟩
+  · exact .inl h1
+  · exact .inr (.inl h1)
+  · exact .inr (.inr h1)
+
+/-- One mandatory migration that blocks until cancellation (tick 3 = its `Migrate` call) and
+returns `(nil, wrapped ctx.Err())`. -/
+def l9Start : Start := ⟨[⟨false, false⟩], ⟨fun _ => ⟨false, none, .ctx⟩, 3, 999⟩⟩
+def freshDisk : Disk := ⟨none, fun _ => none⟩
+
+/-- NEGATION of the full statement for the pinned runner, with witness: the bit is set although
+`Migrate` never returned `(nil, nil)`. -/
+theorem applied_without_completion_pinned :
+    (starts Cfg.pinned freshDisk [l9Start]).1.cur.has 0 = true ∧ freshDisk.cur.has 0 = false ∧
+    ¬ Completed (starts Cfg.pinned freshDisk [l9Start]).2 0 := by
+  refine ⟨by decide, by decide, ?_⟩
+  rintro ⟨c, hc⟩
+  cases c <;> revert hc <;> decide
+
+/-- The applied bit is committed atomically with the deletion of the resume token: if no applied
+migration has a token initially, none has after any history. -/
+theorem applied_clears_intermediate_state (cfg : Cfg) (d : Disk) (sts : List Start) (hd : d.Clean) :
+    (starts cfg d sts).1.Clean :=
+  starts_clean cfg sts d hd
+
+/-- Applied bits are never cleared. -/
+theorem applied_is_permanent (cfg : Cfg) (d : Disk) (sts : List Start) (j : Nat)
+    (h : d.cur.has j = true) : (starts cfg d sts).1.cur.has j = true :=
+  starts_mono cfg sts d j h
+
+/-! ## Each pending migration runs once and in order -/
+
+/-- In one start (from ANY disk, so from every reachable one): the `Migrate` calls happen in
+strictly increasing index order (hence each at most once per run); a migration is called only if
+it is in the target and was not applied at the start (hence never again once applied) nor at the
+moment of the call; and when migration `j` is called, every target migration `i < j` is applied at
+that moment — unless `i` returned a resume state while the context was still live (`InProg`). -/
+theorem once_in_order (cfg : Cfg) (d : Disk) (st : Start) :
+    (callIdxs (start cfg d st).2.1).Pairwise (· > ·) ∧
+    ∀ j c, Event.call j c ∈ (start cfg d st).2.1 →
+      st.reg.target.has j = true ∧ d.cur.has j = false ∧ c.has j = false ∧
+      (∀ i, i < j → st.reg.target.has i = true → c.has i = true ∨ InProg (start cfg d st).2.1 i) :=
+  start_calls cfg d st
+
+/-- Consequence for migrations that return a resume state only when cancelled (all migrations
+registered in node/migration.go do): strictly in order. -/
+theorem in_order_when_state_only_on_cancel (cfg : Cfg) (d : Disk) (st : Start)
+    (hwb : ∀ i s e c, Event.ret i (some s) e c ∈ (start cfg d st).2.1 → c = true)
+    (j : Nat) (c : SV) (hc : Event.call j c ∈ (start cfg d st).2.1) (i : Nat) (hi : i < j)
+    (ht : st.reg.target.has i = true) : c.has i = true := by
+  rcases (start_calls cfg d st).2 j c hc |>.2.2.2 i hi ht with h | ⟨s, e, h⟩
+  · exact h
+  · have := hwb i s e false h; cases this
+
+/-- Two mandatory migrations; the first returns `(state, nil)` with a live context. -/
+def inProgStart : Start := ⟨[⟨false, false⟩, ⟨false, false⟩], ⟨fun i => if i = 0 then ⟨false, some [], .none⟩ else ⟨false, none, .none⟩, 999, 999⟩⟩
+
+/-- Without that hypothesis the order can be broken (this is the runner's documented contract,
+runner_test.go "Migration with intermediate state", not a defect of a registered migration):
+migration 1 is called and applied while migration 0 is still in progress. -/
+theorem out_of_order_when_state_returned_live :
+    Event.call 1 (0#64) ∈ (start Cfg.pinned freshDisk inProgStart).2.1 ∧
+    (start Cfg.pinned freshDisk inProgStart).1.cur = 2#64 := by decide
+
+/-! ## Downgrade and opt-out are refused -/
+
+/-- FULL STRENGTH (repaired `NewRunner`: `ignoreUnknownLast = false`): a database is accepted iff
+every applied migration and every previously targeted (opted-into) migration is in this binary's
+target. -/
+theorem downgrade_and_optout_refused (cfg : Cfg) (hfix : cfg.ignoreUnknownLast = false) (reg : Registry) (d : Disk) :
+    newRunner cfg reg d = .ok ↔
+      (∀ j, d.cur.has j = true → reg.target.has j = true) ∧
+      (∀ j, d.last.has j = true → reg.target.has j = true) := by
+  rw [newRunner_ok_iff, validateNoOptOut_fixed cfg hfix, validateNoVersionDowngrade_iff]
+  exact ⟨fun h => ⟨h.2, h.1⟩, fun h => ⟨h.2, h.1⟩⟩
+
+/-- PARTIAL (pinned `NewRunner`). Missing: previously targeted migrations with an index beyond this
+binary's registry are not looked at. -/
+theorem downgrade_and_optout_refused_partial (cfg : Cfg) (hpin : cfg.ignoreUnknownLast = true) (reg : Registry) (d : Disk) :
+    newRunner cfg reg d = .ok ↔
+      (∀ j, d.cur.has j = true → reg.target.has j = true) ∧
+      (∀ j, j < reg.length → d.last.has j = true → reg.target.has j = true) := by
+  rw [newRunner_ok_iff, validateNoOptOut_pinned cfg hpin, validateNoVersionDowngrade_iff]
+  exact ⟨fun h => ⟨h.2, h.1⟩, fun h => ⟨h.2, h.1⟩⟩
+
+/-- NEGATION of the full statement for the pinned code, with witness: a newer binary targeted
+migration 2 (LastTarget = 0b111) and has not completed it (Current = 0b011); the binary with two
+migrations accepts the database. -/
+theorem unknown_last_target_accepted_pinned :
+    newRunner Cfg.pinned [⟨false, false⟩, ⟨false, false⟩] ⟨some ⟨3#64, 7#64⟩, fun _ => none⟩ = .ok ∧
+    SV.has (7#64) 2 = true ∧ (Registry.target [⟨false, false⟩, ⟨false, false⟩]).has 2 = false := by decide
+
+/-- A binary that lacks an applied migration (index beyond its registry) refuses the database,
+in both variants; and a refused database is left untouched. -/
+theorem missing_applied_migration_refused (cfg : Cfg) (reg : Registry) (hr : reg.ok = true) (d : Disk) (j : Nat)
+    (hj : d.cur.has j = true) (hlen : reg.length ≤ j) (st : Start) (hst : st.reg = reg) :
+    newRunner cfg reg d ≠ .ok ∧ (start cfg d st).1 = d := by
+  have hno : newRunner cfg reg d ≠ .ok := by
+    intro h
+    have := target_lt reg hr (accepted_cur cfg reg d h j hj)
+    omega
+  refine ⟨hno, ?_⟩
+  unfold start
+  rw [hst]
+  cases h : newRunner cfg reg d with
+  | ok => exact absurd h hno
+  | optOut => rfl
+  | downgrade => rfl
+
+/-! ## Resume: any interruption pattern followed by reruns reaches the result of an undisturbed run -/
+
+/-- Runner level, both variants. For every history of starts (cancelled / crashed at any tick,
+migrations failing or returning resume states, optional migrations switched between restarts)
+after which an undisturbed start is accepted: it returns nil, the metadata is exactly that of an
+undisturbed start on the original disk (`Current = Current₀ ∪ Target`, `LastTarget = Target`) and no
+resume token is left for any migration of the target. -/
+theorem resume_same_result (cfg : Cfg) (d0 : Disk) (sts : List Start) (regF : Registry) (envF : Env)
+    (hclean : d0.Clean) (hu : envF.Undisturbed)
+    (hacc : newRunner cfg regF (starts cfg d0 sts).1 = .ok) :
+    (run cfg regF envF (starts cfg d0 sts).1).2 = .ok ∧
+    (run cfg regF envF (starts cfg d0 sts).1).1.disk.md = some ⟨d0.cur ||| regF.target, regF.target⟩ ∧
+    (∀ j, regF.target.has j = true → (run cfg regF envF (starts cfg d0 sts).1).1.disk.ist j = none) :=
+  resume_runner cfg d0 sts regF envF hclean hu hacc
+
+/-- The same metadata as the undisturbed start on the original disk (the case `sts = []`). -/
+theorem undisturbed_start_result (cfg : Cfg) (d0 : Disk) (regF : Registry) (envF : Env) (hu : envF.Undisturbed) :
+    (run cfg regF envF d0).2 = .ok ∧
+    (run cfg regF envF d0).1.disk.md = some ⟨d0.cur ||| regF.target, regF.target⟩ :=
+  ⟨(run_undisturbed cfg regF envF d0 hu).1, (run_undisturbed cfg regF envF d0 hu).2.1⟩
+
+/-! ## The block-transactions migration -/
+
+open BlockTx
+
+/-- FULL STRENGTH (repaired migration). For every chain (any height, empty blocks anywhere), from
+every image in which each block is either still in the previous layout or migrated — in
+particular the previous-layout database and every crash image — and for every sequence of
+`Migrate` calls interrupted in any way (cancellation at the loop head or in the source after any
+number of ranges, death with any subset of the emitted ranges committed, death before the final
+step): no block is ever lost or altered (`Inv` holds throughout); an undisturbed rerun returns
+`(nil, nil)`; and the final database is the database of an undisturbed run on the original
+image, block for block. -/
+theorem blocktx_resume_same_result (cfg : BlockTx.Cfg) (hA : cfg.overwriteMigrated = false)
+    (hB : cfg.skipUnstoredEmpty = false) (orig : Orig) (h : Nat) (db : Db) (hw : WFOrig orig)
+    (hi : Inv orig h db) (att : List (List Step)) :
+    Inv orig h (attempts cfg db att) ∧
+    (migrate cfg (attempts cfg db att) []).2 = .done ∧
+    (migrate cfg (attempts cfg db att) []).1 = (migrate cfg db []).1 :=
+  ⟨(attempts_inv hA hw att db hi).1, resume_data hA hB hw hi att⟩
+
+/-- FULL STRENGTH (repaired migration). Whenever `Migrate` returns `(nil, nil)` — after any
+interruption history — every block up to the chain height is readable through the current
+accessors with exactly its original transactions and receipts, and no old entry is left.
+Together with `applied_implies_complete`: the bit is set only on such a database. -/
+theorem blocktx_preserves (cfg : BlockTx.Cfg) (hA : cfg.overwriteMigrated = false)
+    (hB : cfg.skipUnstoredEmpty = false) (orig : Orig) (h : Nat) (db : Db) (hw : WFOrig orig)
+    (hi : Inv orig h db) (att : List (List Step)) (steps : List Step)
+    (hd : (migrate cfg (attempts cfg db att) steps).2 = .done) (b : Nat) (hb : b ≤ h) :
+    view ((migrate cfg (attempts cfg db att) steps).1.blk b) = some (orig b) ∧
+    oldView ((migrate cfg (attempts cfg db att) steps).1.blk b) = ([], []) := by
+  have hm := (migrate_done_allMigrated hA hB hw (attempts_inv hA hw att db hi).1 steps hd).2 b hb
+  exact ⟨hm.2.2.2, by simp [oldView, hm.2.1, hm.2.2.1]⟩
+
+/-- PARTIAL (pinned migration). What is missing from `blocktx_preserves`: (a) interruptions are
+restricted to cancellation (`Graceful`: no crash — after a crash an already migrated range can lie
+behind an unmigrated one and is overwritten, see `blocktx_resume_overwrites_pinned`); (b) only
+blocks WITH transactions are covered (empty blocks may be left without an entry, see
+`blocktx_empty_block_unreadable_pinned`). From the previous-layout database, after any number of
+cancelled runs, a run that returns `(nil, nil)` leaves every non-empty block readable with its
+original content. -/
+theorem blocktx_preserves_partial (cfg : BlockTx.Cfg) (hB : cfg.skipUnstoredEmpty = true) (orig : Orig) (h : Nat)
+    (db : Db) (hw : WFOrig orig) (ha : AllOld orig h db) (att : List (List Step)) (steps : List Step)
+    (hg : ∀ s ∈ att, ∀ st ∈ s, Graceful st) (hgs : ∀ st ∈ steps, Graceful st)
+    (hd : (migrate cfg (attempts cfg db att) steps).2 = .done) (b : Nat) (hb : b ≤ h)
+    (hne : orig b ≠ ([], [])) :
+    view ((migrate cfg (attempts cfg db att) steps).1.blk b) = some (orig b) := by
+  obtain ⟨p, hp⟩ := attempts_pinv hB hw att db 0 ha.pinv hg
+  exact ((migrate_pinv hB hw hp steps hgs).2 hd b hb hne).2.2.2
+
+/-- Blocks 0–9 in the previous layout, blocks 10–19 already migrated (a crash image of the pinned
+code: the batch holding range 10–19 was committed, the one holding range 0–9 was not). -/
+def holeDb : Db :=
+  ⟨some 19, fun b => if b < 10 then ⟨some 1, [1], [101], none⟩ else ⟨some 1, [], [], some ([1], [101])⟩⟩
+
+/-- NEGATION (pinned migration) with witness: the image satisfies `Inv`, the rerun returns
+`(nil, nil)`, and block 10 reads as an empty block: its transaction and receipt are lost. -/
+theorem blocktx_resume_overwrites_pinned :
+    Inv (fun _ => ([1], [101])) 19 holeDb ∧
+    (migrate BlockTx.Cfg.pinned holeDb []).2 = .done ∧
+    view ((migrate BlockTx.Cfg.pinned holeDb []).1.blk 10) = some ([], []) := by
+  refine ⟨⟨rfl, ?_⟩, by decide, by decide⟩
+  intro b hb
+  by_cases h : b < 10
+  · left; simp [holeDb, h, Unmigrated]
+  · right; simp [holeDb, h, Migrated]
+
+/-- Blocks 0–9 empty (nothing stored, they read as empty lists in the previous layout), block 10
+with one transaction. -/
+def leadingEmptyDb : Db :=
+  ⟨some 10, fun b => if b < 10 then ⟨some 0, [], [], none⟩ else ⟨some 1, [1], [101], none⟩⟩
+
+/-- NEGATION (pinned migration) with witness: the uninterrupted migration of a previous-layout
+database returns `(nil, nil)` and block 0 is "not found" through the current accessors. -/
+theorem blocktx_empty_block_unreadable_pinned :
+    AllOld (fun b => if b < 10 then ([], []) else ([1], [101])) 10 leadingEmptyDb ∧
+    (migrate BlockTx.Cfg.pinned leadingEmptyDb []).2 = .done ∧
+    view ((migrate BlockTx.Cfg.pinned leadingEmptyDb []).1.blk 0) = none ∧
+    oldView (leadingEmptyDb.blk 0) = ([], []) := by
+  refine ⟨⟨rfl, ?_⟩, by decide, by decide, by decide⟩
+  intro b hb
+  by_cases h : b < 10
+  · simp [leadingEmptyDb, h, Unmigrated]
+  · simp [leadingEmptyDb, h, Unmigrated]
+
+/-- An empty database (no chain height) is complete at once and untouched. -/
+theorem blocktx_empty_database (cfg : BlockTx.Cfg) (db : Db) (hh : db.height = none) (steps : List Step) :
+    migrate cfg db steps = (db, .done) := by
+  unfold migrate; rw [hh]
+
+/-! ## Non-vacuity -/
+
+-- the hypotheses of the block-transactions theorems are met by concrete databases
+example : WFOrig (fun _ => ([1], [101])) := fun _ => rfl
+example : Inv (fun _ => ([1], [101])) 19 holeDb := blocktx_resume_overwrites_pinned.1
+-- the repaired migration on the two witnesses gives the original content back
+example : view ((migrate BlockTx.Cfg.fixed holeDb []).1.blk 10) = some ([1], [101]) := by decide
+example : view ((migrate BlockTx.Cfg.fixed leadingEmptyDb []).1.blk 0) = some ([], []) := by decide
+-- interrupted attempts really move the database: death after the only range was committed, before the final step
+example : ((attempts BlockTx.Cfg.fixed leadingEmptyDb [[.crash none [true]]]).blk 10).blob = some ([1], [101]) ∧
+    ((attempts BlockTx.Cfg.fixed leadingEmptyDb [[.crash none [true]]]).blk 0).blob = none := by decide
+-- an undisturbed environment exists, and the repaired runner refuses the unknown-last witness
+example : Env.Undisturbed ⟨fun _ => ⟨false, none, .none⟩, 999, 999⟩ := ⟨fun _ => rfl, by decide, by decide⟩
+example : newRunner Cfg.fixed [⟨false, false⟩, ⟨false, false⟩] ⟨some ⟨3#64, 7#64⟩, fun _ => none⟩ ≠ .ok := by decide
+-- the repaired runner does not mark the L9 witness as applied
+example : (starts Cfg.fixed freshDisk [l9Start]).1.cur.has 0 = false := by decide
+example : freshDisk.Clean := fun j h => by
+  have : freshDisk.cur = 0#64 := rfl
+  rw [this, SV.has_zero] at h; cases h
 
 end Juno.C18.Props
